@@ -120,7 +120,25 @@ DELETE FROM safe_update
 # instead of requiring a second downward pass.
 FILL_SAFE_UPDATE = f"""
 INSERT INTO safe_update(i, safe, safe_nh)
-WITH RECURSIVE trace(i, safe, chain, safe_nh, chain_nh) AS (
+WITH RECURSIVE
+-- The (indirect) creators of every flagged step.
+-- UNION (not UNION ALL) keeps this finite even if creator links would ever form a cycle.
+flagged_ancestor(i, ancestor) AS (
+    SELECT s.node, n.creator FROM step AS s JOIN node AS n ON n.i = s.node
+    WHERE s._check_safe AND n.creator IS NOT NULL
+    UNION
+    SELECT fa.i, n.creator FROM flagged_ancestor AS fa JOIN node AS n ON n.i = fa.ancestor
+    WHERE n.creator IS NOT NULL
+),
+-- Flagged steps below another flagged step:
+-- their (indirect) creator is recomputed in this very pass,
+-- so the cached values of their creator chain are stale and they must not be seeds.
+-- They are always reached through the recursion from the topmost flagged step above them.
+shadowed(i) AS (
+    SELECT DISTINCT fa.i FROM flagged_ancestor AS fa
+    JOIN step AS a ON a.node = fa.ancestor WHERE a._check_safe
+),
+trace(i, safe, chain, safe_nh, chain_nh) AS (
     -- Seed directly at each _check_safe-flagged step,
     -- using its creator's already-computed _safe/_safe_ignoring_hold and state
     -- (a root creator has no `step` row and is treated as trivially safe via COALESCE).
@@ -159,11 +177,10 @@ WITH RECURSIVE trace(i, safe, chain, safe_nh, chain_nh) AS (
     FROM step AS s
     JOIN node AS cnode ON cnode.i = s.node
     LEFT JOIN step AS creator_step ON creator_step.node = cnode.creator
-    -- A flagged step whose creator is flagged too is not a seed:
-    -- its creator's _safe/_safe_ignoring_hold are about to change in this very pass,
-    -- so seeding from them would combine a stale value with the fresh one below (MIN).
-    -- Such a step is always reached through the recursion from its (topmost flagged) creator.
-    WHERE s._check_safe AND NOT COALESCE(creator_step._check_safe, 0)
+    -- Only the topmost flagged steps are seeds (see `shadowed` above):
+    -- seeding a step below another flagged step from its creator's cached values
+    -- would combine a stale value with the fresh one from the recursion below (MIN).
+    WHERE s._check_safe AND s.node NOT IN (SELECT i FROM shadowed)
 
     UNION ALL
 
